@@ -289,6 +289,7 @@ func (g *Gen) applyCall(ce callee, c *ssa.CallCommon, val ssa.Value, pos token.P
 		return
 	}
 
+	g.detFact(ce, args, results, guard)
 	ctr := g.contractFor(ce)
 	pre := copyState(g.cur)
 	if ctr != nil {
@@ -362,6 +363,44 @@ func inRepoFn(fn *ssa.Function) bool {
 		return inRepo(fn.Object().Pkg())
 	}
 	return false
+}
+
+// detFact: an in-repo callee that stores nothing, allocates nothing and calls nothing outside the
+// repository returns a function of its arguments and of the heaps it reads: two calls in the same
+// state agree (no contract needed to know that hasMixed() answers the same twice).
+func (g *Gen) detFact(ce callee, args []TV, results []TV, guard string) {
+	if ce.fn == nil || !inRepoFn(ce.fn) || g.frames == nil || len(results) != 1 || len(ce.fn.Params) != len(args) {
+		return
+	}
+	reads, ok := g.frames.deterministic(ce.fn)
+	if !ok {
+		return
+	}
+	key := g.P.KeyOf[ce.fn]
+	if key == "" {
+		return
+	}
+	var sig, terms []string
+	for _, a := range args {
+		sig = append(sig, string(a.S))
+		terms = append(terms, a.T)
+	}
+	for _, n := range reads {
+		g.ensureHeapSortByName(n)
+		hs, ok := g.heapSort[n]
+		if !ok {
+			return
+		}
+		sig = append(sig, hs)
+		terms = append(terms, g.heap(n))
+	}
+	fn := sym("det." + key)
+	g.declare(fn, "("+strings.Join(sig, " ")+") "+string(results[0].S))
+	t := fn
+	if len(terms) > 0 {
+		t = "(" + fn + " " + strings.Join(terms, " ") + ")"
+	}
+	g.guard(implies(guard, eq(results[0].T, t)))
 }
 
 // applyInferredFrame havocs what an in-repo callee without a declared frame may write, as precisely
